@@ -282,6 +282,9 @@ def one(ctx, rng, xr):
             if margin < 1e-4:
                 rec.skip(op, "a frequency within rounding of the tail-window edge")
                 continue
+            if not np.isfinite(a) or abs(a) > 1e30:
+                rec.skip(op, "tail-fit value beyond the float32 range of the documented result")
+                continue
             if len(acceptable) > 1:
                 rec.skip(op, "exactly equal peaks")
                 continue
